@@ -383,8 +383,8 @@ theorem toDouble_numeral {ws : Str} {sg : Sign} {dg : Str} (h : NumSyntax ws sg 
     · cases sg <;> simp [Sign.str] at hc <;> omega
     · exact isDigit_nonzero c (h.digits c hc)
   show dOfStr (cstr (ws ++ sg.str ++ dg)) = _
-  rw [cstr_of_nonzero _ hnz]
-  exact dOfStr_numeral h hne
+  rw [cstr_of_nonzero _ hnz, dOfStr_numeral h hne]
+  simp [dOfNat, h64]
 
 /-- a string holding the numeral of a non-negative integer converts to the same double as the integer alternative:
     `Variant(String::fromUInt64(n)).toDouble() == Variant(n).toDouble()`, for every `n < 2^64` -/
